@@ -355,8 +355,20 @@ def run(prog: Program, col: Collector, tier: str, refs: Optional[Refs] = None, c
         rv = rets[0].value
         ok = (rv in last) or (isinstance(rv, ast.Name) and any(isinstance(a, ast.Assign) and a.value in last and norm(a.targets[0]) == rv.id for a in walk_no_nested(call.node)))
     col.check(ok, f"{call.fq}::returns env[-1]", "the program returns the last computed value", "OpProgram.__call__ does not return the last value of the environment", call.loc())
-    rl = [n for n in code.body if isinstance(n, ast.Expr) and "return v" in norm(n)]
-    col.check(bool(rl) and ("- 1" in norm(rl[-1]) or "-1" in norm(rl[-1])), f"{code.fq}::returns last variable", "the printed function returns the last variable",
+    # the printed `return <name><index>`: an appended f-string whose literal part starts with `return ` and whose index is `... - 1`;
+    # the name part (a literal prefix or a computed one) is whatever `let` uses - not compared textually
+    rl = []
+    for n_ in code.body:
+        if isinstance(n_, ast.Expr) and isinstance(n_.value, ast.Call) and isinstance(n_.value.func, ast.Attribute) and n_.value.func.attr == "append" and n_.value.args \
+                and isinstance(n_.value.args[0], ast.JoinedStr):
+            js = n_.value.args[0]
+            lit = "".join(v.value for v in js.values if isinstance(v, ast.Constant) and isinstance(v.value, str))
+            if lit.strip().startswith("return"):
+                rl.append(n_)
+    def _idx_minus_one(n_):
+        fv = [v for v in n_.value.args[0].values if isinstance(v, ast.FormattedValue)]
+        return bool(fv) and isinstance(fv[-1].value, ast.BinOp) and isinstance(fv[-1].value.op, ast.Sub) and isinstance(fv[-1].value.right, ast.Constant) and fv[-1].value.right.value == 1
+    col.check(bool(rl) and _idx_minus_one(rl[-1]), f"{code.fq}::returns last variable", "the printed function returns the last variable",
               "as_code does not return the last variable", code.loc())
     # the compiler numbers the anf of the lowered expression (whose last element is the root)
     src = [norm(n) for n in walk_no_nested(cf.node) if isinstance(n, ast.Assign)]
@@ -546,6 +558,8 @@ def run(prog: Program, col: Collector, tier: str, refs: Optional[Refs] = None, c
     _printed_tuple(prog, col, refs)
     from . import shapes
     shapes.r_raw_getitem_indexes_in_place(prog, col, refs, cat, "R18.15")
+    col.rule("R18.16", "names generated for the printed program cannot shadow its inputs", floor=1)
+    _generated_names_avoid_inputs(prog, col, refs)
     return col
 
 
@@ -912,3 +926,41 @@ def _trace_order(prog: Program, col: Collector, refs: Refs):
                       "(tracing `add(a := mul(x, x), exp(a))` fails with KeyError)", f.loc(lp))
     else:
         col.unresolved(construct, "cannot tell in which order the numbered sequence is", f.loc(lp))
+
+
+# ---------------------------------------------------------------------- R18.16 generated names do not shadow the inputs
+
+
+def _generated_names_avoid_inputs(prog: Program, col: Collector, refs: Refs):
+    """as_code prints a function whose parameters are the program's inputs and whose locals are generated names.  The inputs are
+    copied into generated locals one after the other, so a generated name that equals an input name overwrites a parameter that is
+    still to be read.  The generated names must therefore be derived from something that was tested against `self.inputs` - a fixed
+    literal prefix cannot be safe for every input name."""
+    code = require_func(prog, "funsor.ops.program::OpProgram.as_code")
+    selfn = code.positional[0]
+    # the f-strings that print an assignment `<name> = ...` or `return <name>`
+    n = 0
+    bad = None
+    for js in [x for x in ast.walk(code.node) if isinstance(x, ast.JoinedStr)]:
+        vals = js.values
+        # name part: a literal ending in an identifier character directly followed by a formatted index
+        for a, b in zip(vals, vals[1:]):
+            if isinstance(a, ast.Constant) and isinstance(a.value, str) and isinstance(b, ast.FormattedValue):
+                tail = a.value.rstrip()
+                if tail == a.value and tail and (tail[-1].isalnum() or tail[-1] == "_") and not tail.endswith("return"):
+                    # e.g. "    v" + {i}: the literal supplies the name's prefix
+                    n += 1
+                    bad = bad or (js, tail.split()[-1] if tail.split() else tail)
+    # a computed prefix: a local compared against self.inputs in a loop / test
+    computed = False
+    for x in ast.walk(code.node):
+        if isinstance(x, (ast.While, ast.If)) and any(isinstance(y, ast.Attribute) and y.attr == "inputs" and isinstance(y.value, ast.Name) and y.value.id == selfn for y in ast.walk(x.test)):
+            computed = True
+    if bad is None and computed:
+        col.ok(f"{code.fq}::generated names", "the prefix of the generated names is chosen after testing it against self.inputs", code.loc())
+    elif bad is None:
+        col.unresolved(f"{code.fq}::generated names", "cannot find how local names are generated", code.loc())
+    else:
+        col.violation(f"{code.fq}::generated names", f"locals are named `{bad[1]}<i>` with a fixed prefix while the parameters of the printed function carry the user's input names: an input "
+                      f"called `{bad[1]}0` or `{bad[1]}1` is overwritten by `{bad[1]}0 = <first input>` before it is read, so the printed source computes something else than the "
+                      "program (x ** y with inputs named v1, v0 prints as v0 = v1; v1 = v0)", code.loc(bad[0]))
